@@ -22,7 +22,7 @@ THEOREMS = ["Pfl.PyPass.transform_plain",
             "Pfl.Rx.thompson_lang",
             "Pfl.ENFA.langDiff_none_iff",
             "Pfl.ENFA.langDiff_some"]
-ALPHA = ["a", "b", "c", "1", " ", "-", "+"]
+ALPHA = ["a", "b", "c", "1", " ", "-", "+", "d", "\\"]
 CONTROLS = ["\n", "\t"]        # printable too (string.printable); tried as single characters and inside strings
 LITS = ["a", "b", "c", "1", "-", "\\+", "\\*", "\\.", "\\(", "\\)", "\\?", "\\|", "\\[", "\\]", " "]
 
@@ -112,7 +112,7 @@ def gen_pat(rng, depth=3):
 import string
 UNIVERSE = string.printable
 META = ".^$*+?{}[]\\|()"
-LIT_POOL = ["a", "b", "c", "1", " ", "-", "_", "A", "z", "+", "*", ".", "(", ")", "?", "|", "[", "]", "{", "$", "^", "\\", "\t"]
+LIT_POOL = ["a", "b", "c", "1", " ", "-", "_", "A", "z", "d", "s", "w", "+", "*", ".", "(", ")", "?", "|", "[", "]", "{", "$", "^", "\\", "\t"]
 SET_POOL = ["a", "b", "c", "1", "9", " ", "_", "+", "*", "(", ")", "?", ".", "$", "-", "]", "^", "A", "Z", "~", "!"]
 
 
@@ -128,8 +128,10 @@ def gen_ast(rng, depth):
         items = []
         for _ in range(rng.randint(1, 3)):
             k = rng.random()
-            if k < 0.6:
+            if k < 0.55:
                 items.append(["c", rng.choice(SET_POOL)])
+            elif k < 0.7:
+                items.append(["s", rng.choice("dsw")])
             else:
                 lo, hi = sorted(rng.sample(RANGE_ENDS, 2))
                 items.append(["r", lo, hi])
@@ -158,6 +160,8 @@ def render_item(it, first):
         return c
     if it[0] == "c":
         return esc(it[1], first)
+    if it[0] == "s":
+        return "\\" + it[1]
     return esc(it[1], first) + "-" + esc(it[2], False)
 
 
